@@ -58,7 +58,7 @@ ValReport == { [id |-> ValId(tab[x[1][1]].pats[x[1][2]], x[2]),
                 single |-> RetOwned[x[1][1]] /\ SingleUse(tab[x[1][1]].pats[x[1][2]].form, x[2], tab[x[1][1]].pats[x[1][2]].chain[x[2]]),
                 delivered |-> Cardinality({ j \in 1..Len(AllDisp) : AllDisp[j].m = x[1][1] /\ AllDisp[j].sel = x[1][2]
                                               /\ AllDisp[j].seg = x[2] /\ AllDisp[j].d.k = "ret" })] : x \in ValSegs }
-Beh == [strict |-> cfg.strict, leaves |-> cfg.leaves, perm |-> cfg.perm, new |-> newErr, offs |-> Offences(cfg.leaves, HasMutexApi),
+Beh == [strict |-> cfg.strict, leaves |-> cfg.leaves, perm |-> cfg.perm, new |-> newErr, offs |-> Offences(cfg.leaves, NoMutexFor),
         steps |-> [j \in 1..Len(hist) |-> StepOut(hist[j])],
         vals |-> IF phase = "done" THEN ValReport ELSE {}]
 Emit == (EmitOn /\ phase \in {"done", "newerr"}) => PrintT(<<"REPLAY", ToJson(Beh)>>)
@@ -112,6 +112,13 @@ Chains2(K, N) == { <<Seg(k1, q1[1], q1[2]), Seg(k2, q2[1], q2[2])>> : k1 \in K, 
 Chains3(K, N) == { <<Seg(k1, q1[1], q1[2]), Seg(k2, q2[1], q2[2]), Seg(k3, q3[1], q3[2])>> :
                      k1 \in K, k2 \in K, k3 \in K, q1 \in ExactQs(N), q2 \in ExactQs(N), q3 \in EndQs(N) }
 WellTyped(m, form, chain) == TypeChecks(form, chain, m # "t0")
+\* ---------------- C14 (feature set without a mutex API): which returns can be stored ----------------
+C14MutexLeaves == { l \in { Leaf1(m, f, Arg, c) : m \in {"r0", "t0"}, f \in {"some", "next", "each"},
+                                          c \in {Open, <<V("once", 0)>>, <<V("n", 2)>>, <<Seg("answer", "none", 0)>>, <<V("once", 0), Seg("answer", "none", 0)>>} } :
+                           WellTyped(l.m, l.form, l.pats[1].chain) }
+                  \cup { Leaf1("b0", f, Arg, Open) : f \in {"some", "each"} }
+                  \cup { Leaf("r0", "stub", <<[pred |-> Arg, chain |-> Open]>>), Leaf("r0", "stub", <<[pred |-> Arg, chain |-> <<V("once", 0)>>]>>) }
+
 C02Leaves(Ms, Fs, Cs) == { l \in { Leaf1(m, f, {0}, c) : m \in Ms, f \in Fs, c \in Cs } : WellTyped(l.m, l.form, l.pats[1].chain) }
 C02LeavesQ == C02Leaves({"r1"}, Forms, Chains1(KindsQ, {0, 2}) \cup Chains2(KindsQ, {0, 2}))
               \cup C02Leaves({"t0"}, {"some", "next"}, Chains1({"val", "answer"}, {2}) \cup Chains2({"val", "answer", "panic"}, {1}))
